@@ -155,7 +155,7 @@ def generate(seed, idx, tier):
     knobs = F.gen_knobs(prng.stream(seed, PROP, idx // DS_SHARE, 'knobs'))
     rng = prng.stream(seed, PROP, idx, 'scenario')
     srng = prng.stream(seed, PROP, idx, 'schedule')
-    layout = drng.choice(('simple', 'simple', 'hive', 'hivep'))
+    layout = drng.choice(('simple', 'simple', 'hive', 'hivep', 'hivep2'))
     nrg = drng.randrange(3, 7)
     per = drng.choice((6, 12, 25, 40))
     nrows = nrg * per
@@ -175,7 +175,7 @@ def generate(seed, idx, tier):
     threads = []
     if mode == 'read':
         for _ in range(nthreads):
-            ops = [gen_op(rng, cfg, nrg, nrows, layout == 'hivep',
+            ops = [gen_op(rng, cfg, nrg, nrows, layout.startswith('hivep'),
                           knobs['v2'] or knobs['page'] is not None, extras)
                    for _ in range(rng.choice((1, 1, 2, 3)))]
             if rng.random() < 0.3:
@@ -186,8 +186,10 @@ def generate(seed, idx, tier):
     else:
         nthreads = min(nthreads, 6)
         how = rng.choice(('part', 'part', 'partitioned'))
+        comp_dict = rng.random() < 0.5
         for t in range(nthreads):
             threads.append([{'op': 'w-' + how, 't': t,
+                             'comp_dict': comp_dict,
                              'vseed': rng.randrange(2 ** 31),
                              'nrows': rng.randrange(3, 30)}])
     r = srng.random()
@@ -235,6 +237,9 @@ def frame_spec(case, batch=0, nrows=None, vseed=None):
         spec['cols'].append(['tz', 'dttz', 'some', vs + 9, 'Europe/Paris'])
     if case['layout'] == 'hivep':
         spec['part'] = {'p': ['pstr', ['a', 'b'], vs + 7]}
+    elif case['layout'] == 'hivep2':
+        spec['part'] = {'p': ['pstr', ['a', 'b'], vs + 7],
+                        'q': ['pint', [1, 2], vs + 10]}
     return spec
 
 
@@ -271,7 +276,7 @@ def build_dataset(case, fs):
     layout = case['layout']
     path = '/w/ds.parq' if layout == 'simple' else D.DS
     scheme = 'simple' if layout == 'simple' else 'hive'
-    parts = ['p'] if layout == 'hivep' else []
+    parts = {'hivep': ['p'], 'hivep2': ['p', 'q']}.get(layout, [])
     extra = {'object_encoding': {'j': 'json', 's': 'utf8'}} \
         if 'j' in case.get('extras', ()) else None
     opts = {'codec': case['codec'], 'rgo': case['per'], 'stats': True}
@@ -592,7 +597,8 @@ def _first_diff(a, b, path=''):
 
 def execute_writers(case, fs, path, res, violation, bump):
     from fastparquet import writer
-    layoutp = case['layout'] == 'hivep'
+    layoutp = case['layout'].startswith('hivep')
+    wparts = ['p', 'q'] if case['layout'] == 'hivep2' else ['p']
     frames = []
     for ops in case['threads']:
         op = ops[0]
@@ -607,23 +613,29 @@ def execute_writers(case, fs, path, res, violation, bump):
 
     def calls(tfs, fmd):
         out = []
+        # the codec as one string, or as one dict object (with a _default
+        # entry) that all writer threads are handed
+        comp = case['codec']
+        if case['threads'][0][0].get('comp_dict'):
+            comp = {'_default': case['codec'] or 'SNAPPY', 'f': None,
+                    's': 'GZIP'}
         for t, (ops, df) in enumerate(zip(case['threads'], frames)):
             op = ops[0]
             if op['op'] == 'w-part' or not layoutp:
-                data = df.drop(columns=['p']) if 'p' in df else df
+                data = df.drop(columns=[c for c in ('p', 'q') if c in df])
                 p = '/w/out/part.%d.parquet' % t
 
                 def fn(p=p, data=data):
                     rg = writer.make_part_file(tfs.open(p, 'wb'), data,
                                                fmd.schema,
-                                               compression=case['codec'],
+                                               compression=comp,
                                                fmd=fmd, stats=True)
                     return [rg.num_rows, rg.total_byte_size]
             else:
                 def fn(t=t, df=df):
                     rgs = writer.partition_on_columns(
-                        df, ['p'], '/w/out', 'part.%d.parquet' % t, fmd,
-                        case['codec'], tfs.open, tfs.mkdirs, True, True)
+                        df, wparts, '/w/out', 'part.%d.parquet' % t, fmd,
+                        comp, tfs.open, tfs.mkdirs, True, True)
                     return [[rg.num_rows, rg.columns[0].file_path]
                             for rg in rgs]
             out.append(fn)
